@@ -547,6 +547,49 @@ def facts():
     decision("provider_known_srv", P_K, "(record_eqb r srv)", provider_k(1))
     decision("provider_known_txt", P_K, "(record_eqb r txt)", provider_k(2))
 
+    def prober_guard():
+        b = func_body(prober, r"void\s+ProberPrivate::onMessageReceived\s*\(")
+        cond = nth_cond(b, "if", 0)
+        tail = b[b.index(cond) + len(cond):]
+        if not re.match(r"\s*\)\s*\{?\s*return\s*;", tail):
+            raise ValueError("the first if of onMessageReceived no longer returns")
+        return Dec(cond, {"confirmed": ("confirmed", "bool"), "message.isResponse()": ("response", "bool")}).parse()
+
+    decision("prober_ignore_message", "(confirmed response : bool)", "(orb confirmed (negb response))", prober_guard)
+
+    # --- provider.cpp: the entry guard of onMessageReceived and the decisions of Provider::update
+    def provider_guard():
+        b = func_body(provider, r"void\s+ProviderPrivate::onMessageReceived\s*\(")
+        cond = nth_cond(b, "if", 0)
+        tail = b[b.index(cond) + len(cond):]
+        if not re.match(r"\s*\)\s*\{?\s*return\s*;", tail):
+            raise ValueError("the first if of onMessageReceived no longer returns")
+        return Dec(cond, {"confirmed": ("confirmed", "bool"), "message.isResponse()": ("response", "bool")}).parse()
+
+    decision("provider_ignore_message", "(confirmed response : bool)", "(orb (negb confirmed) response)", provider_guard)
+
+    def provider_update(n, expect):
+        def g():
+            b = func_body(provider, r"void\s+Provider::update\s*\(")
+            cond = nth_cond(b, "if", n)
+            if expect not in re.sub(r"\s+", "", cond):
+                raise ValueError("the %d-th if of Provider::update is no longer about %s" % (n, expect))
+            v = merge(rec_vocab("d->srvProposed", "srvProposed"), rec_vocab("d->srvRecord", "srv"),
+                      {"d->srvProposed.target().isEmpty()": ("(match bs_data (r_target srvProposed) with [] => true | _ :: _ => false end)", "bool"),
+                       "d->confirmed": ("confirmed", "bool"), "fqName": ("fqName", "bstr"),
+                       "d->prober": ("has_prober", "bool"), "d->probedName": ("probed", "bstr")})
+            return Dec(cond, v).parse()
+        return g
+
+    decision("provider_has_target", "(srvProposed : record)",
+             "(negb (match bs_data (r_target srvProposed) with [] => true | _ :: _ => false end))", provider_update(1, "srvProposed.target()"))
+    decision("provider_must_confirm", "(confirmed : bool) (fqName : bstr) (srv : record)",
+             "(orb (negb confirmed) (negb (bs_eqb fqName (r_name srv))))", provider_update(2, "d->confirmed"))
+    decision("provider_probe_pending", "(has_prober : bool) (probed fqName : bstr)",
+             "(andb has_prober (bs_eqb probed fqName))", provider_update(3, "probedName"))
+    decision("provider_retarget", "(srvProposed srv : record)",
+             "(negb (bs_eqb (r_target srvProposed) (r_target srv)))", provider_update(5, "srvRecord.target()"))
+
     # --- browser.cpp: which records of a response the first loop of onMessageReceived keeps, and which service types
     #     updateService ignores
     # the build is against Qt 5: of `#if (QT_VERSION >= ...) A #else B #endif` keep B (the braces of A and B overlap)
